@@ -190,3 +190,100 @@ package tlog
 //@   ensures (result == nil) == (1 <= n && n <= t && len(p) == TL(0, t, n)
 //@             && RUNNEW(arr(p), off(p), len(p), 0, t, n, h) == th && RUNOLD(arr(p), off(p), len(p), 0, t, n, h) == h)
 //@   props C03
+
+//@ # ====================== tiles (C10) ======================
+//@ # Tile arithmetic is abstracted: these functions are pure, their bodies (64-bit shifts) are not verified here.
+//@ func tileForIndex
+//@   pure
+//@   trusted "tile coordinate arithmetic (shifts); abstracted as an uninterpreted pure function"
+//@   props C10
+//@ func tileParent
+//@   pure
+//@   trusted "tile coordinate arithmetic (shifts); abstracted as an uninterpreted pure function"
+//@   props C10
+//@ func StoredHashIndex
+//@   pure
+//@   trusted "verified separately under C09 where claimed; here an uninterpreted pure function"
+//@   props C10
+//@ func subTreeIndex
+//@   allocates
+//@   trusted "index arithmetic; only the shape of the result is used"
+//@   ensures lo < hi && len(need) == 0 ==> len(result) >= 1
+//@   props C10
+//@ # the hash a tile's data yields for a storage index, and whether the tile covers that index
+//@ spec func HFT(t Tile, d []byte, idx int) Hash
+//@ spec func HFTOK(t Tile, d []byte, idx int) bool
+//@ spec func THASH(d []byte) Hash
+//@ func HashFromTile
+//@   trusted "abstracted by HFT/HFTOK (functions of the tile, its data and the index)"
+//@   ensures (result1 == nil) == HFTOK(t, data, index)
+//@   ensures result1 == nil ==> result0 == HFT(t, data, index)
+//@   props C10
+//@ func tileHash
+//@   trusted "abstracted by THASH (a function of the data)"
+//@   ensures result == THASH(data)
+//@   props C10
+
+//@ iface TileReader.Height(tr TileReader) int
+//@ iface TileReader.ReadTiles(tr TileReader, tiles []Tile) (data [][]byte, err error)
+//@   allocates
+//@ # SaveTiles receives only authenticated tiles (the obligation is stated at the call site in ReadHashes);
+//@ # implementations do not modify the slices they are given
+//@ iface TileReader.SaveTiles(tr TileReader, tiles []Tile, data [][]byte)
+//@   allocates
+
+//@ # tile j was compared with (and equals) the corresponding hash inside its already planned parent tile
+//@ spec macro CHECKED(N int64, tiles []Tile, data [][]byte, tileOrder map[Tile]int, j int) bool =
+//@     has(tileOrder, tileParent(tiles[j], 1, N))
+//@     && HFTOK(tileParent(tiles[j], 1, N), data[tileOrder[tileParent(tiles[j], 1, N)]], StoredHashIndex(tileParent(tiles[j], 1, N).L * tileParent(tiles[j], 1, N).H, tiles[j].N))
+//@     && HFT(tileParent(tiles[j], 1, N), data[tileOrder[tileParent(tiles[j], 1, N)]], StoredHashIndex(tileParent(tiles[j], 1, N).L * tileParent(tiles[j], 1, N).H, tiles[j].N)) == THASH(data[j])
+
+//@ spec macro PLAN(stx []int64, stxTileOrder []int, tiles []Tile, tileOrder map[Tile]int, NS int) bool =
+//@     len(stxTileOrder) == len(stx) && len(stx) >= 1 && 1 <= NS && NS <= len(tiles)
+//@     && (forall i2 int :: 0 <= i2 && i2 < len(stx) ==> 0 <= stxTileOrder[i2] && stxTileOrder[i2] < NS)
+//@     && (forall p Tile :: has(tileOrder, p) ==> 0 <= tileOrder[p] && tileOrder[p] < len(tiles))
+//@ spec macro IPLAN(indexes []int64, indexTileOrder []int, tiles []Tile) bool =
+//@     len(indexTileOrder) == len(indexes)
+//@     && (forall i2 int :: 0 <= i2 && i2 < len(indexes) ==> 0 <= indexTileOrder[i2] && indexTileOrder[i2] < len(tiles))
+
+//@ func Tile.Path
+//@   pure
+//@   trusted "string formatting of tile coordinates (fmt); used only in error messages here"
+//@   props C10
+
+//@ func (*tileHashReader).ReadHashes
+//@   requires r != nil
+//@   mathints "bounds on tile levels and heights come from tile arithmetic that is abstracted here (tileParent, tileForIndex)"
+//@   let NS = len(tiles) @after loop 0
+//@   # every tile handed to SaveTiles was planned for the tree hash (authenticated by the recomputed root)
+//@   # or compared with its parent's entry (authenticated through an already authenticated parent)
+//@   call TileReader.SaveTiles requires [C10, C01] coverage: forall j int {tiles[j]} :: 0 <= j && j < len(tiles) ==> j < NS || CHECKED(r.tree.N, tiles, data, tileOrder, j)
+//@   loop 0:
+//@     invariant 0 - 1 <= @idx && @idx < len(stx) && len(stxTileOrder) == len(stx) && len(stx) >= 1
+//@     invariant len(tiles) <= @idx + 1 && (@idx >= 0 ==> len(tiles) >= 1)
+//@     invariant forall i2 int :: 0 <= i2 && i2 <= @idx ==> 0 <= stxTileOrder[i2] && stxTileOrder[i2] < len(tiles)
+//@     invariant forall p Tile :: has(tileOrder, p) ==> 0 <= tileOrder[p] && tileOrder[p] < len(tiles)
+//@   loop 1:
+//@     invariant 0 - 1 <= @idx && @idx < len(indexes)
+//@     invariant PLAN(stx, stxTileOrder, tiles, tileOrder, NS) && IPLAN(indexes, indexTileOrder, tiles)
+//@   loop 2:
+//@     invariant 0 <= k && 0 <= i && i < len(indexes)
+//@     invariant PLAN(stx, stxTileOrder, tiles, tileOrder, NS) && IPLAN(indexes, indexTileOrder, tiles)
+//@   loop 3:
+//@     invariant 0 - 1 <= k && 0 <= i && i < len(indexes)
+//@     invariant PLAN(stx, stxTileOrder, tiles, tileOrder, NS) && IPLAN(indexes, indexTileOrder, tiles)
+//@     decreases k + 1
+//@   loop 4:
+//@     invariant 0 - 1 <= @idx && @idx < len(tiles)
+//@     decreases len(tiles) - @idx
+//@   loop 5:
+//@     invariant 0 - 1 <= i && i <= len(stx) - 2
+//@     decreases i + 1
+//@   loop 6:
+//@     invariant 0 <= i
+//@     invariant forall j int {tiles[j]} :: NS <= j && j < i ==> CHECKED(r.tree.N, tiles, data, tileOrder, j)
+//@     decreases len(tiles) - i
+//@   loop 7:
+//@     invariant 0 - 1 <= @idx && @idx < len(indexes) && len(hashes) == len(indexes)
+//@     decreases len(indexes) - @idx
+//@   props C10
